@@ -264,6 +264,8 @@ impl<D: StorageData> Storage<D> {
     }
 
     pub fn replace_with_bytes(&mut self, index: StorageIndex, bytes: &[u8]) -> Result<(), DbError> {
+        self.record(index.0)?;
+
         let id = self.transaction();
         self.insert_bytes_at(index, 0, bytes)?;
         self.resize_value(index, bytes.len() as u64)?;
